@@ -64,6 +64,7 @@ def stepFull (l : Line) : String :=
   let m1 := modelAt l (int l "now1")
   let obs := obsString l
   let m := if m1 == obs then m1 else m0
+  let m := if wireAgrees l then m else "wire-parse-differs-from-net/http:" ++ m
   s!"case={str l "case"} class={classOf l} model={m} observed={obs} monitor={showMon (monitorLine l)} agree={if m == obs then 1 else 0}"
 
 end Drv.C05
